@@ -442,6 +442,26 @@ def gen_history(rng, big):
         steps.append(st)
         shapes_in.append((nr, nc))
         shapes_out.append(out_shape)
+        # the same call again (same arguments) on DIFFERENT data of the same shape: nothing may be remembered between calls
+        while rng.random() < 0.45 and len(steps) < 9:
+            me = len(steps) - 1
+            again = {k: v for k, v in steps[me].items() if k not in ("X", "X_from", "dtype")}
+            how = rng.random()
+            if how < 0.4:
+                again = _literal(again, nonconstant_matrix(rng, nr, nc), rng)
+            elif how < 0.75:
+                perm = list(range(nr))
+                rng.shuffle(perm)
+                again["X_from"] = {"step": me, "what": "in", "rowperm": perm}
+                if "y" in again and again["kind"] != "noise_missing":
+                    again["y"] = [again["y"][t] for t in perm]
+            else:
+                perm = list(range(nc))
+                rng.shuffle(perm)
+                again["X_from"] = {"step": me, "what": "in", "colperm": perm}
+            steps.append(again)
+            shapes_in.append((nr, nc))
+            shapes_out.append(out_shape)
     if not steps:
         return gen_history(rng, big)
     return {"kind": "history", "steps": steps, "seed": rng.randint(0, 10 ** 6)}
@@ -746,10 +766,10 @@ def info_of_impl(j):
     }
 
 
-def info_diff(model_t, impl_j):
+def info_diff(model_t, impl_j, general=True):
     a, b = info_of_model(model_t), info_of_impl(impl_j)
     bad = [k for k in a if a[k] != b[k]]
-    if impl_j.get("general") != {}:
+    if general and impl_j.get("general") != {}:
         bad.append("general")
     return bad, a, b
 
@@ -842,11 +862,11 @@ def judge(case, res, val, ctx, stats):
         worst = 0.0
         for t, j in enumerate(idx):
             col = [Y[i][nc + t] for i in range(nr)]
+            if len({X[i][j] for i in range(nr)}) < 2:      # constant source: outside the property (only met inside histories)
+                stats["corr_constant_source_skipped"] = stats.get("corr_constant_source_skipped", 0) + 1
+                continue
             if any(isinstance(c, str) for c in col):
                 bad("C20_corr correspondence", "correlated feature is finite", [str(c) for c in col][:5])
-                continue
-            if len({X[i][j] for i in range(nr)}) < 2:
-                stats["corr_constant_source_skipped"] = stats.get("corr_constant_source_skipped", 0) + 1
                 continue
             rho = pearson([float(c) for c in col], [float(X[i][j]) for i in range(nr)])
             dev = abs(rho - r) if rho == rho else float("inf")
@@ -1070,7 +1090,7 @@ def judge_history(i, case, res, vmap, ctxs, effs, stats):
         # the self-description after this call
         npos = marks.get(k)
         if npos is not None and 0 < npos <= len(trace):
-            diff, a, b = info_diff(trace[npos - 1], sr["info"])
+            diff, a, b = info_diff(trace[npos - 1], sr["info"], general=False)   # 'general' belongs to generate_data (C19)
             if diff:
                 out.append(("C20_info_call / dataset_info correspondence", tag + "self-description lists exactly what this call added: " + ",".join(diff),
                             {kk: b.get(kk) for kk in diff if kk in b}, {kk: a.get(kk) for kk in diff if kk in a}))
